@@ -5,7 +5,9 @@
 #define XT_N 3
 #endif
 #define XT_INF ((I_t)(CM_I_MAX / 2 - 1))
+#ifndef XT_R
 #define XT_R 8
+#endif
 
 static inline _Bool spa_shape(struct vec_vec_I D, struct vec_vec_U P)
 {
@@ -48,6 +50,49 @@ static inline _Bool spa_is_closure_step(struct vec_vec_I D0, struct vec_vec_I D1
       if ((WIDE_t)D1.e[i].e[j] != best) return 0;
     }
   return 1;
+}
+/* ghost: the direct edge weights E (the tightest asserted constraint per ordered pair; XT_INF = none).
+ * Predecessor invariant: for i != j with a finite distance, k = P[i][j] is the last hop of a shortest path:
+ *   D[i][j] == D[i][k] + E[k][j]   (so walking P from j back reaches i and the walked edges sum to D[i][j]),
+ * and no distance exceeds a direct edge. */
+struct vec_vec_I xt_E;
+static inline _Bool spa_E_shape(struct vec_vec_I E)
+{
+  if (E.n != XT_N) return 0;
+  for (U_t i = 0; i < XT_N; i++)
+  {
+    if (E.e[i].n != XT_N) return 0;
+    for (U_t j = 0; j < XT_N; j++) if (!(E.e[i].e[j] == XT_INF || (E.e[i].e[j] >= -XT_R && E.e[i].e[j] <= XT_R))) return 0;
+  }
+  return 1;
+}
+static inline _Bool spa_edges_respected(struct vec_vec_I D, struct vec_vec_I E)
+{
+  for (U_t i = 0; i < XT_N; i++)
+    for (U_t j = 0; j < XT_N; j++)
+      if (i != j && E.e[i].e[j] != XT_INF && (D.e[i].e[j] == XT_INF || D.e[i].e[j] > E.e[i].e[j])) return 0;
+  return 1;
+}
+static inline _Bool spa_pred_ok(struct vec_vec_I D, struct vec_vec_U P, struct vec_vec_I E)
+{
+  for (U_t i = 0; i < XT_N; i++)
+    for (U_t j = 0; j < XT_N; j++)
+      if (i != j && D.e[i].e[j] != XT_INF)
+      {
+        U_t k = P.e[i].e[j];
+        if (k >= XT_N || k == j) return 0;
+        if (E.e[k].e[j] == XT_INF || D.e[i].e[k] == XT_INF) return 0;
+        if ((WIDE_t)D.e[i].e[j] != (WIDE_t)D.e[i].e[k] + (WIDE_t)E.e[k].e[j]) return 0;
+      }
+  return 1;
+}
+/* E with the entry [from][to] replaced by dist */
+static inline struct vec_vec_I spa_E_with(struct vec_vec_I E, U_t from, U_t to, I_t dist)
+{
+  for (U_t i = 0; i < XT_N; i++)
+    for (U_t j = 0; j < XT_N; j++)
+      if (i == from && j == to) E.e[i].e[j] = dist;
+  return E;
 }
 static inline _Bool spa_D_eq_except(struct vec_vec_I a, struct vec_vec_I b, U_t fi, U_t fj, I_t val)
 {
